@@ -2,6 +2,7 @@ package checks
 
 import (
 	"fmt"
+	"github.com/wkhere/bcl"
 	"regexp"
 	"strconv"
 	"strings"
@@ -161,6 +162,13 @@ func checkDiagForm(src string, toks []ref.Tok, lexfail *ref.LexFail, d implDiag)
 	return ""
 }
 
+// heldRun: the results of the previous compareRun call, kept alive, with the text they showed when the caller was done with them.
+var heldRun struct {
+	blocks  []bcl.Block
+	binding bcl.Binding
+	want    string
+}
+
 // compareRun is the reference-model oracle: parse + run src on both sides and compare
 // everything the properties make observable.
 func compareRun(src string) (*fw.Fail, cmpInfo) {
@@ -174,9 +182,21 @@ func compareRun(src string) (*fw.Fail, cmpInfo) {
 		}
 	}
 	r := impl.Interpret(src)
+	// what the PREVIOUS call returned still belongs to the caller: this call must not have touched it (a result slice
+	// or map the library recycles shows up here: the held text was rendered after the caller's own writes)
+	if heldRun.want != "" {
+		if got := impl.BlocksStr(heldRun.blocks) + " " + impl.BindingStr(heldRun.binding); got != heldRun.want {
+			heldRun.want = ""
+			return fw.Failf("the blocks and binding returned by the previous call are not changed by a later call", "they changed while this call ran; they now read %s", fw.Trunc(got, 300)), cmpInfo{"earlier-result-changed"}
+		}
+	}
 	// what a call returned belongs to the caller: once it has been compared, every map in it is written to, so
 	// that a map the library still shares (with another block, with a later call) shows up as a foreign key there
-	defer impl.Poison(r.Blocks, r.Binding)
+	defer func() {
+		impl.Poison(r.Blocks, r.Binding)
+		heldRun.blocks, heldRun.binding = r.Blocks, r.Binding
+		heldRun.want = impl.BlocksStr(r.Blocks) + " " + impl.BindingStr(r.Binding)
+	}()
 	toks, lexfail := ref.Lex(src)
 	diags, warns, malformed := splitLog(src, r.Log)
 	if len(malformed) > 0 {
